@@ -283,8 +283,20 @@ func (r *inFlightRequest) String() string {
 }
 
 func (r *inFlightRequest) onFrameReceived(f *frame.Frame) error {
+	// The read lock must be held from the moment _incoming is read until the send is over: close (called by the
+	// timeout goroutine or by the handler when the connection is closed) closes that channel under the write lock,
+	// and a send on a closed channel panics. The select never blocks, and the lock is released before calling close.
+	delivered, closed := false, false
+	r.lock.RLock()
 	select {
 	case r._incoming <- f:
+		delivered = true
+	case <-r.ctx.Done():
+		closed = true
+	default:
+	}
+	r.lock.RUnlock()
+	if delivered {
 		if isLastFrame(f) {
 			r.stopTimeout()
 			r.close(nil)
@@ -292,9 +304,9 @@ func (r *inFlightRequest) onFrameReceived(f *frame.Frame) error {
 			r.resetTimeout()
 		}
 		return nil
-	case <-r.ctx.Done():
+	} else if closed {
 		return fmt.Errorf("%v: request closed", r)
-	default:
+	} else {
 		err := fmt.Errorf("%v: too many pending incoming frames: %d", r, len(r.incoming))
 		r.close(err)
 		return err
